@@ -211,8 +211,23 @@ def crash_sig(rec, sclass):
     return crash_signature(rec, sclass)
 
 
-def judge(rec, sclass):
+_BKM_RX = re.compile(r"<businessKnowledgeModel\b[^>]*\bname=\"([^\"]+)\"(.*?)</businessKnowledgeModel>", re.S)
+
+
+def self_invoking_knowledge_model(xml):
+    """name of a knowledge model whose own logic invokes it by name (recursion written in the model, not a requirement cycle)"""
+    for m in _BKM_RX.finditer(xml or ""):
+        name, body = m.group(1), m.group(2)
+        if re.search(r"<text>[^<]*\b%s\s*\(" % re.escape(name), body):
+            return name
+    return None
+
+
+def judge(rec, sclass, xml=None):
     """-> (outcome label, [(signature, what)], timed_out, n_calls, n_null)"""
+    if xml is not None and "crash" in (rec or {}) and stack_overflow((rec.get("crash") or {}).get("stderr", "")) and self_invoking_knowledge_model(xml):
+        # the recursion is written in the model's own logic: one root cause whatever fault exposed it
+        sclass = "logic-recursion:self-invoking-knowledge-model"
     if rec is None or "harness_error" in rec or rec.get("missing"):
         raise runner.Inconclusive("driver reported a harness error: %s" % json.dumps(rec)[:300])
     if rec.get("skipped"):
@@ -301,7 +316,7 @@ def run_unit(unit):
             "sanitizer_reports": [x[-1500:] for x in san][:3],
         }
         for it, (cls, sclass), rec, case in zip(items, info, results, cases):
-            label_, bad, timed_out, n_calls, n_null = judge(rec, sclass)
+            label_, bad, timed_out, n_calls, n_null = judge(rec, sclass, case.get("xml"))
             out["outcomes"][label_] += 1
             out["calls"] += n_calls
             out["nulls"] += n_null
